@@ -15,6 +15,8 @@ MC_CFG = "CONSTANTS MaxSteps = %d\nDeviation = \"%s\"\nSPECIFICATION Spec\nINVAR
 BOXES = {
     "unit": [0.0, 1.0], "negative": [-3.0, -1.0], "tiny": [1e-9, 2e-9], "tinyneg": [-2e-300, -1e-300], "denorm": [1e-300, 2e-300],
     "huge": [-1e9, 1e12], "huge2": [-1e12, 1e9], "offset": [1e6, 1e6 + 1.0], "mixed": [-0.25, 7.5],
+    # bounds that are not multiples of any decimal grid
+    "third": [1.0 / 3.0, math.pi], "negpi": [-math.pi, -1.0 / 7.0], "sevenths": [1e6 / 7.0, 2e6 / 7.0],
 }
 DRAWS = [0.0, 1e-300, 1e-16, 0.25, 0.5 - 1e-16, 0.5, 0.5 + 2e-16, 0.75, 1.0 - 1.2e-16]
 
@@ -218,10 +220,11 @@ class Runs(Part):
     def cases(self, ctx):
         rng = ctx.rng
         cases = []
-        for alg in ("nsga2", "epsmoea", "omopso", "smpso", "psoga"):
+        for alg in ("nsga2", "nsga2-corners", "nsga2-corners", "epsmoea", "omopso", "smpso", "psoga"):
             for _ in range(8 if ctx.quick else 80):
-                cases.append({"alg": alg, "n": rng.randint(2, 12), "g": rng.randint(1, 6), "dim": rng.randint(1, 4),
-                              "pfail": rng.choice([0.0, 0.0, 0.2]), "precision": rng.choice([None, None, 1e-3]), "cseed": rng.randrange(1 << 30)})
+                cases.append({"alg": alg.split("-")[0], "n": rng.randint(2, 12), "g": rng.randint(1, 6), "dim": rng.randint(1, 4),
+                              "pfail": rng.choice([0.0, 0.0, 0.2]), "precision": rng.choice([None, None, 1e-3]), "corner_start": alg.endswith("corners"),
+                              "cseed": rng.randrange(1 << 30)})
         return cases
 
     def run_case(self, ctx, case):
@@ -233,8 +236,8 @@ class Runs(Part):
         dim = case["dim"]
         # the first coordinate has a range far above 1e-10: artap identifies designs closer than 1e-10 (absolute), so a box that is
         # narrower than that in every coordinate admits only one design and offspring generation cannot terminate (not a C08 matter)
-        boxes = [list(BOXES[rng.choice(["unit", "negative", "huge", "offset", "mixed"])])] + \
-                [list(BOXES[rng.choice(["unit", "negative", "tiny", "huge", "offset", "mixed"])]) for _ in range(dim - 1)]
+        boxes = [list(BOXES[rng.choice(["unit", "negative", "huge", "offset", "mixed", "third", "negpi", "sevenths"])])] + \
+                [list(BOXES[rng.choice(["unit", "negative", "tiny", "huge", "offset", "mixed", "third", "negpi", "sevenths"])]) for _ in range(dim - 1)]
         trace = []
         params_snap = []
 
@@ -271,6 +274,18 @@ class Runs(Part):
         alg.options['max_population_number'] = case["g"]
         alg.options['max_population_size'] = case["n"]
         alg.options['verbose_level'] = 0
+        if case["alg"] == "nsga2" and case.get("corner_start"):
+            # a user-supplied initial design on the vertices and faces of the box (screening designs start there)
+            from artap.operators import CustomGenerator
+            gen = CustomGenerator(problem.parameters)
+            start, tries = [], 0
+            while len(start) < case["n"] and tries < 1000:
+                tries += 1
+                v = [rng.choice([b[0], b[1], b[0], b[1], (b[0] + b[1]) / 2.0]) for b in boxes]
+                if v not in start or tries > 200:
+                    start.append(v)
+            gen.init(start)
+            alg.generator = gen
         st, res = observe(alg.run)
         # a run that stops with an exception is outside this property (C08 is about the designs that ARE evaluated; run completion and
         # budgets are C09's subject).  Observed on the pinned tree: with a declared coarse `precision` the rounded initial designs may
